@@ -694,6 +694,15 @@ func opqOf(cls, id int) any {
 			stackage.Stack
 			Label string
 		}{stackage.Or().Push("in", "side"), "p"}
+	case 35: // zero-valued structs that satisfy stackage.Interface through an embedded NIL pointer (1: *Stack, 2: *Condition), 3: a pointer to one
+		switch id {
+		case 1:
+			v = struct{ *stackage.Stack }{}
+		case 2:
+			v = struct{ *stackage.Condition }{}
+		default:
+			v = &struct{ *stackage.Stack }{}
+		}
 	case 32: // a pointer to an int holding id: equal to the int id as far as IsEqual is concerned, another value all the same
 		p := new(int)
 		*p = id
